@@ -129,7 +129,7 @@ impl Prop for C17 {
     type Input = Input;
 
     fn budget(tier: Tier) -> u64 {
-        tier.pick(100_000, 2_000_000)
+        tier.pick(800_000, 5_000_000)
     }
 
     fn strategy(tier: Tier) -> BoxedStrategy<Case> {
